@@ -136,8 +136,31 @@ def run_impl(w, sc):
         return orig_resolve(self_, key)
 
     tmod.MultiTypeMap.resolve = counting_resolve
+    budget = [None]
+
+    class CutNow(BaseException):
+        pass
+
+    def tick():
+        if budget[0] is not None:
+            if budget[0] == 0:
+                budget[0] = None
+                raise CutNow()
+            budget[0] -= 1
+
+    def counting_setitem(self_, key, value):
+        tick()
+        dict.__setitem__(self_, key, value)
+
+    class CountingDict(dict):
+        def __setitem__(self_, key, value):
+            tick()
+            dict.__setitem__(self_, key, value)
+
+    tmod.MultiTypeMap.__setitem__ = counting_setitem
     try:
         mm = tmod.MultiTypeMap(name="t", key_error=TableError)
+        mm.errors = CountingDict()
         handlers = {}
         codes = {}
         for m in sc["meths"]:
@@ -171,6 +194,20 @@ def run_impl(w, sc):
             if op[0] == "reg":
                 m = sc["meths"][op[1]]
                 mm.register(make_sig(w, m), handlers[m["id"]])
+            elif op[0] == "cut":
+                key = keyobjs[op[2]]
+                if op[1] is not None:
+                    key = (codes[op[1]], *key)
+                budget[0] = op[3]
+                try:
+                    mm[key]
+                except CutNow:
+                    res = ["cut"]
+                except (TableError, graphlib.CycleError, KeyError):
+                    pass
+                finally:
+                    budget[0] = None
+                res = None
             else:
                 key = keyobjs[op[2]]
                 if op[1] is not None:
@@ -202,9 +239,10 @@ def run_impl(w, sc):
     finally:
         RANK["fn"] = None
         tmod.MultiTypeMap.resolve = orig_resolve
+        del tmod.MultiTypeMap.__setitem__
 
 
-def gen_scenario(rng, static_only=True, features=True, nuser=None, kinds=None, nmeth=None, npos_max=3, kw=True):
+def gen_scenario(rng, static_only=True, features=True, nuser=None, kinds=None, nmeth=None, npos_max=3, kw=True, cuts=False):
     w = make_world(rng, features=features, nuser=nuser)
     if kinds is None:
         kinds = ["cls"] * 6 if static_only else ["cls"] * 6 + ["union", "inter", "exactly", "strict", "hasm", "pred", "gen", "type"]
@@ -302,6 +340,13 @@ def gen_scenario(rng, static_only=True, features=True, nuser=None, kinds=None, n
         c = None
         if rng.random() < 0.4:
             c = 100 + rng.randrange(nmeth)
+        if cuts and rng.random() < 0.45:
+            # the same lookup, interrupted after n dict writes of its resolution; then the key and the
+            # continuations from every method are looked up
+            ops.append(["cut", c, ki, rng.choice([0, 0, 1, 1, 2, 3, 5])])
+            follow = [["get", None, ki]] + [["get", 100 + m, ki] for m in rng.sample(range(nmeth), min(nmeth, 3))]
+            rng.shuffle(follow)
+            ops.extend(follow)
         ops.append(["get", c, ki])
         asked.append(["get", c, ki])
     # ranks
@@ -355,6 +400,9 @@ def run(seed, n, **kw):
             if b["r"]:
                 hist[b["r"][0]] = hist.get(b["r"][0], 0) + 1
             a = dict(a)
+            if isinstance(a["r"], dict) and "nw" in a["r"]:
+                a["r"] = None
+                b = {k: v for k, v in b.items() if k != "nres"}
             if isinstance(a["r"], dict):
                 a["nres"] = a["r"]["nres"]
                 a["r"] = a["r"]["res"]
@@ -371,7 +419,7 @@ if __name__ == "__main__":
     seed = int(sys.argv[1]) if len(sys.argv) > 1 else 0
     n = int(sys.argv[2]) if len(sys.argv) > 2 else 50
     static = (sys.argv[3] == "static") if len(sys.argv) > 3 else True
-    nops, diffs, hist, keep = run(seed, n, static_only=static)
+    nops, diffs, hist, keep = run(seed, n, static_only=static, cuts=len(sys.argv) > 4)
     print("ops", nops, "diffs", len(diffs), hist)
     for d in diffs[:5]:
         print(json.dumps(d, default=str)[:1500])
